@@ -538,7 +538,7 @@ def run_shard(shard: Dict[str, Any], rep: Report) -> None:
         except Exception as e:
             viol("eager_reset_raises", {"error": repr(e)[:300]})
             es = None
-        n_eager = 3 if tier == "quick" else 8
+        n_eager = 6 if tier == "quick" else 12  # long enough to reach the end of short episodes (4-block FlatPack, 5-city TSP ...)
         cur = es
         if cur is not None:
             # eager chain from the eager reset state + eager calls on collected jitted states
@@ -617,6 +617,28 @@ def run_shard(shard: Dict[str, Any], rep: Report) -> None:
                 bad = tree_diff(_canon(dec_pair(ns, nt)), _canon(dec_pair(js, jt)), **tol)
                 if bad:
                     viol("eager_step_equals_jit", {"fields": bad[:6], "call": tag})
+
+    # ---- 3d. jax.disable_jit(): JAX's own "plain Python" mode, in which lax.cond / scan / while_loop bodies are ordinary Python
+    # calls on the caller's objects - a branch that writes into its operand reaches the argument of step
+    if shard.get("eager"):
+        ev_calls = [c for c in calls if "-event-" in c[2]]
+        for (s0, a, tag, kint2) in (calls[len(calls) // 2: len(calls) // 2 + 1] + ev_calls[:1]):
+            snap = snapshot(s0)
+            try:
+                with jax.disable_jit():
+                    ns, nt = env.step(s0, A.as_action(runner.spec, a))
+            except Exception as e:
+                viol("disable_jit_step_raises", {"error": repr(e)[:300], "call": tag})
+                continue
+            rep.evaluated(2)
+            rep.count("disable_jit_steps")
+            diffs = value_changes(snapshot_diff(snap, snapshot(s0)), rep, f"{name}/{cid} step under disable_jit")
+            if diffs:
+                viol("argument_mutated", {"call": tag + " (jax.disable_jit)", "changes": diffs[:6]}, qualifier="disable_jit;" + ";".join(sorted({d.split(":")[0] for d in diffs}))[:60])
+            js, jt = runner.step(s0, a)
+            bad = tree_diff(_canon(dec_pair(ns, nt)), _canon(dec_pair(js, jt)), exact=False, rtol=1e-5, atol=1e-6)
+            if bad:
+                viol("eager_step_equals_jit", {"fields": bad[:6], "call": tag + " (jax.disable_jit)"}, qualifier="disable_jit")
 
     # ---- 2b. cross-process digest (thorough) -----------------------------------------------------------
     if shard.get("xproc"):
